@@ -10,16 +10,29 @@ use serde_json::{json, Value};
 use crate::scenario::{BCall, Scenario};
 use crate::world::W;
 
-macro_rules! marker_types {
-    ($($t:ident),*) => {
-        $(pub struct $t;)*
-        pub fn type_id_of(i: usize) -> TypeId {
-            let ids = [$(TypeId::of::<$t>()),*];
-            ids[(i - 1) % ids.len()]
+/// Data types: `M<1>` .. `M<128>` (distinct `TypeId`s).
+pub struct M<const I: usize>;
+
+macro_rules! marker_table {
+    ($($i:literal)*) => {
+        fn marker_ids() -> &'static [TypeId] {
+            static IDS: std::sync::OnceLock<Vec<TypeId>> = std::sync::OnceLock::new();
+            IDS.get_or_init(|| vec![$(TypeId::of::<M<$i>>()),*])
         }
     };
 }
-marker_types!(T1, T2, T3, T4, T5, T6, T7, T8, T9, T10, T11, T12, T13, T14);
+marker_table!(1 2 3 4 5 6 7 8 9 10 11 12 13 14 15 16 17 18 19 20 21 22 23 24 25 26 27 28 29 30 31 32
+    33 34 35 36 37 38 39 40 41 42 43 44 45 46 47 48 49 50 51 52 53 54 55 56 57 58 59 60 61 62 63 64
+    65 66 67 68 69 70 71 72 73 74 75 76 77 78 79 80 81 82 83 84 85 86 87 88 89 90 91 92 93 94 95 96
+    97 98 99 100 101 102 103 104 105 106 107 108 109 110 111 112 113 114 115 116 117 118 119 120 121 122 123 124 125 126 127 128);
+
+pub const TYPES_MAX: usize = 128;
+
+pub fn type_id_of(i: usize) -> TypeId {
+    let ids = marker_ids();
+    assert!(i >= 1 && i <= ids.len(), "harness: data type index {i} out of range");
+    ids[i - 1]
+}
 
 #[derive(Clone, Debug)]
 pub struct Node {
